@@ -49,11 +49,24 @@ PROPS = {
                                  "C18_crypto_partial: that generated keys validate and that a signature verifies with its public half and no other key involves real key generation and JWS; exercised by the harness (6x6 sign/verify matrix), not proved"],
         explanation="Decision-logic proof over tables regenerated from jwkutil/validate.go; exhaustive correspondence over key type x every registered algorithm with real keys; key-set selection rule proved and exercised through temp files.",
     ),
+    "C16": dict(
+        level="proof", gen=True, corr_name="ordered.Unmarshal into tagged structs (driver mode c16)",
+        trusted_base=COMMON_TB + ["struct descriptors: regenerated from the source for package pipeline (Gen/Structs, go/ast); for the harness-defined family obtained by reflection exactly as the library reads tags",
+                                 "fuel-bounded value decoder (fuel 64 in the driver, far above any generated nesting)",
+                                 "warnings from nested custom Unmarshalers are outside the generic model (none arise in the family)"],
+        explanation="Partition/destination theorems for the key bookkeeping of decodeInto for every well-formed descriptor, instantiated to all regenerated pipeline structs; generic value decoder tied by correspondence over an 11-type family; yaml.v3 agreement and key partition as direct oracles.",
+    ),
 }
 
 NOT_APPLICABLE = {}
 
 MANIFEST_TEXT = {
+    "C16": dict(
+        text="Kernel-checked proofs (Lean 4) about a mirror of decodeInto's field loop: for every descriptor with pairwise distinct keys and non-empty aliases and every input mapping, the keys consumed by fields plus the in-order inline remainder are exactly the input keys (none lost, none duplicated), each key goes to the field whose tag names it, else to the field listing it as first present alias when its own key is absent, else to the inline remainder; absent keys leave fields untouched, null zeroes; alias-free targets follow the YAML library's rule. The descriptor well-formedness is re-proved for every struct of package pipeline regenerated from source. The generic value decoder (scalars, slices, maps, ordered maps, nested/pointer structs, inline forms) is tied by correspondence over a family of 11 struct types, with yaml.v3's own decoder and the key partition as direct oracles.",
+        design_ref="DESIGN.md §6 C16",
+        note="Trusted: Lean kernel; struct-tag translator; the differential correspondence; yaml.v3 as reference decoder in the oracle (null elements inside typed sequences excluded: yaml.v3 drops them).",
+        technique="Lean 4 proofs (partition / destination of keys for arbitrary descriptors) + regenerated descriptor obligations + type-family correspondence",
+    ),
     "C11": dict(
         text="Kernel-checked proof (Lean 4) that a statement-for-statement model of Matrix.validatePermutation accepts exactly when the matrix specification does (names every dimension once; a setup combination or some adjustment's tuple; no adjustment with that tuple marked skip; malformed adjustments reject), for all matrices and permutations and independently of every Go map iteration order; ShouldSkip table; rejected and empty permutations leave the step unmodified. Tied to the code by exhaustive small-scope and random correspondence through the real validatePermutation/InterpolateMatrixPermutation, and the specification written directly in Go.",
         design_ref="DESIGN.md §6 C11",
